@@ -608,4 +608,13 @@ theorem block_witness_uncapped_regression (e : Mach.Env) (nd : Mach.Node) (b : B
     e.m < (Mach.blockWitnessUncapped e nd b).length :=
   Mach.uncapped_too_long e nd b h
 
+/-- C19 (witness shape, network level — the hypothesis "at least M Commits of the view are held" is gone): in every
+reachable state of the network of machines, whatever event happens next, every block a machine hands to its ledger carries
+EXACTLY M signatures, in validator order (and, `block_witness_valid`, of that block only). -/
+theorem block_witness_exact_network (e : Mach.Env) (ms : Mach.MNet) (hr : Mach.MReachable e ms) (ev : Mach.NEv)
+    (inp : Mach.Inp) (hen : Mach.NEnabled e ms inp ev) (b : Block) (sigs : List (Nat × Bool))
+    (hb : Mach.Out.block b sigs ∈ Mach.evOuts e ms inp ev) :
+    sigs.length = e.m ∧ sigs.Pairwise (fun s t => s.1 < t.1) :=
+  Mach.mach_block_witness_exact e ms hr ev inp hen b sigs hb
+
 end NeoModel.Dbft
